@@ -80,7 +80,7 @@ class C05Machine(Machine):
         "merge_adds_uri_synonym_only", "merge_keeps_pattern", "merge_into_start_built", "same_object_twice",
         "empty_prefix_token", "empty_uri_prefix_token", "start_from_chain", "start_from_subconverter",
         "retry_rejected_now_accepted", "retry_rejected_again_rejected", "other_side_of_rejected_appended", "other_side_of_rejected_merged_elsewhere",
-        "start_from_reconciliation", "submission_with_own_case_variants", "large_converter", "flag_left_to_its_default", "big_submission",
+        "start_from_reconciliation", "submission_with_own_case_variants", "large_converter", "merge_into_record_past_position_256", "flag_left_to_its_default", "big_submission",
     ]
 
     @classmethod
@@ -102,11 +102,22 @@ class C05Machine(Machine):
         }
         large = rng.random() < (0.02 if tier == "quick" else 0.06)
         cfg["large"] = large
+        # very rarely a HUGE converter: past 256 records (CPython's small-int cache, one-byte counters, ...)
+        huge = rng.random() < (0.004 if tier == "quick" else 0.012)
+        cfg["huge"] = huge
         if large:
             cfg["curie_pool"] = cfg["curie_pool"] + tokens.synthetic_curie_prefixes(60)
             cfg["uri_pool"] = cfg["uri_pool"] + tokens.synthetic_uri_prefixes(60)
             cfg["start_size"] = rng.choice([14, 15, 16, 17, 20, 30, 31, 32, 33, 40])   # on / next to usual thresholds
             cfg["max_ops"] = rng.randint(8, 24)
+        if huge:
+            cfg["large"] = True
+            cfg["curie_pool"] = cfg["curie_pool"][:len(cfg["curie_pool"]) - (60 if large else 0)] + tokens.synthetic_curie_prefixes(60 + 840)
+            cfg["uri_pool"] = cfg["uri_pool"][:len(cfg["uri_pool"]) - (60 if large else 0)] + tokens.synthetic_uri_prefixes(60 + 840)
+            cfg["start_size"] = rng.choice([257, 258, 300])
+            cfg["start_kind"] = rng.choice(["ctor", "epm", "prefix_map"])
+            cfg["max_ops"] = rng.randint(8, 14)
+            cfg["p_collide"] = 0.9
         return cfg
 
     def __init__(self, config, known=frozenset()):
@@ -117,7 +128,12 @@ class C05Machine(Machine):
         self.conv = None
         self.model = None
         cp, up = config["curie_pool"], config["uri_pool"]
-        if config.get("large"):
+        if config.get("huge"):
+            nb_c = len(cp) - 900
+            nb_u = len(up) - 900
+            cp = cp[:nb_c] + cp[nb_c::75]
+            up = up[:nb_u] + up[nb_u::75]
+        elif config.get("large"):
             # large configurations: probe every base token and every 4th synthetic one
             nb_c = len(cp) - 60
             nb_u = len(up) - 60
@@ -216,6 +232,8 @@ class C05Machine(Machine):
             return "invalid"
         if r < 0.08:
             return "same_object"
+        if cfg.get("huge") and r < 0.45:
+            return rng.choice(["collide_both_same", "collide_both_same", "new_synonyms_only", "identical"])
         if self.rejected and r < 0.20:
             return "retry_rejected"
         if self.rejected and r < 0.32:
@@ -242,6 +260,8 @@ class C05Machine(Machine):
                "pattern": rng.choice(PATTERNS)}
         recs = model.records
         r1 = rng.choice(recs) if recs else None
+        if cfg.get("huge") and len(recs) > 60:
+            r1 = recs[-rng.randint(1, 45)]      # positions 257.. are where the size matters
         if rel == "fresh" or r1 is None:
             rec["prefix"] = take(fresh_c, cfg["curie_pool"])
             rec["uri_prefix"] = take(fresh_u, cfg["uri_pool"])
@@ -542,6 +562,13 @@ class C05Machine(Machine):
                 self.probe("submission_with_own_case_variants")
             if len(self.model.records) >= 20:
                 self.probe("large_converter")
+            if len(self.model.records) > 257 and target is not None and outcome.startswith("merge"):
+                try:
+                    pos = [r.prefix for r in self.model.records].index(target.prefix)
+                except ValueError:
+                    pos = -1
+                if pos >= 257:
+                    self.probe("merge_into_record_past_position_256")
             if len(mrec.prefix_synonyms) >= 5:
                 self.probe("big_submission")
             if "" in mrec.all_prefixes():
